@@ -282,6 +282,7 @@ func VerifC04_Arguments() {
 	u.SetAddress(id, nil, nil, nil)
 	u.SetListener(id, netip.AddrPort{}, 0)
 	u.SetDoorPasscodes(id, nondetU8("door"))
+	u.SetDoorPasscodes(id, nondetU8("door3"), nondetU32("c1"), nondetU32("c2"), nondetU32("c3"), nondetU32("c4"), nondetU32("c5"), nondetU32("c6"))
 	u.ActivateKeypads(id, nil)
 	u.SetDoorControlState(id, nondetU8("door2"), types.ControlState(nondetInt("state")), 0)
 	u.SetInterlock(id, types.Interlock(nondetU8("interlock")))
